@@ -51,12 +51,23 @@ type request struct {
 	version    primitive.ProtocolVersion
 	qp         proxycore.QueryPlan
 	frm        interface{}
-	isSelect   bool // Only used for prepared statements currently
+	isSelect   bool            // Only used for prepared statements currently
+	reprepared *proxycore.Host // The host the request has already been re-executed on after a re-prepare
 	mu         sync.Mutex
 }
 
 func (r *request) Execute(next bool) {
 	r.mu.Lock()
+	if !next {
+		// Re-execution on the current host after the statement was re-prepared there. Only do this once per host,
+		// otherwise a host that keeps answering "unprepared" after a successful re-prepare would bounce the request
+		// between PREPARE and EXECUTE forever and the client would never get a response.
+		if r.reprepared == r.host {
+			next = true
+		} else {
+			r.reprepared = r.host
+		}
+	}
 	r.executeInternal(next)
 	r.mu.Unlock()
 }
